@@ -714,3 +714,229 @@ Proof.
 Qed.
 End Horizontal.
 End Monoid.
+
+(* ------------------------------------------------------------------ vertical 2-d core (no algebraic law needed) *)
+Section Vertical.
+Variable A : Type.
+Variable f : A -> A -> A.
+Variable N : nat.
+Hypothesis HN : 0 < N.
+Variable d : A.
+Variable inp : list A.
+Variables outer K C : nat.
+Hypothesis HK : 0 < K.
+Hypothesis HC : 0 < C.
+Hypothesis Houter : 0 < outer.
+Hypothesis Hinp : length inp = outer * K * C.
+
+Definition vcells (e : entry2) : list (nat * nat) :=
+  let '((ot, oo), (_, io)) := e in
+  match ot with
+  | ACCUMULATE_PACKED => map (fun t => (oo + t, io + t)) (seq 0 N)
+  | ACCUMULATE => [(oo, io)]
+  | _ => []
+  end.
+
+Lemma vrow_cells i : i < outer * K ->
+  flat_map vcells (map (fun j => reduction_2d N VERTICAL i j (outer, C) (outer * K, C)) (seq 0 (C / N + C mod N)))
+  = map (fun x => (i / K * C + x, i * C + x)) (seq 0 C).
+Proof.
+  intros Hi.
+  assert (HCq : C = C / N * N + C mod N) by (pose proof (Nat.div_mod C N ltac:(lia)); lia).
+  assert (Hm : C mod N < N) by (apply Nat.mod_upper_bound; lia).
+  assert (HKdiv : outer * K / outer = K) by (rewrite Nat.mul_comm; apply Nat.div_mul; lia).
+  rewrite seq_app, map_app, flat_map_app.
+  rewrite (seq_shift_add (0 + C / N) (C mod N)), map_map. simpl plus.
+  assert (Hs : seq 0 C = seq 0 (C / N * N) ++ seq (0 + C / N * N) (C mod N)) by (rewrite <- seq_app; now rewrite <- HCq).
+  rewrite Hs, map_app. f_equal.
+  - rewrite <- (flat_map_blocks (fun x => (i / K * C + x, i * C + x)) N 0 (C / N)).
+    rewrite flat_map_concat_map, map_map, <- flat_map_concat_map.
+    apply flat_map_ext_in_local. intros j Hj. apply in_seq in Hj.
+    unfold reduction_2d, vcells. cbn [fst snd]. rewrite HKdiv.
+    assert (HjN : j * N + N <= C) by nia.
+    replace (j * N + N <=? C) with true by (symmetry; apply Nat.leb_le; lia).
+    replace (C <? j * N) with false by (symmetry; apply Nat.ltb_ge; lia).
+    rewrite (seq_shift_add (0 + j * N) N), map_map. apply map_ext. intros t. f_equal; lia.
+  - rewrite <- (flat_map_singletons (fun x => (i / K * C + x, i * C + x)) (0 + C / N * N) (C mod N)).
+    rewrite flat_map_concat_map, map_map, <- flat_map_concat_map.
+    apply flat_map_ext_in_local. intros t Ht. apply in_seq in Ht.
+    unfold reduction_2d, vcells. cbn [fst snd]. rewrite HKdiv.
+    replace ((C / N + t) * N + N <=? C) with false by (symmetry; apply Nat.leb_gt; nia).
+    destruct (Nat.ltb_spec C ((C / N + t) * N)) as [H1|H1].
+    + f_equal. f_equal; lia.
+    + assert (t = 0) by nia. subst t. f_equal. f_equal; lia.
+Qed.
+
+Definition upd_row (out : list A) (o : nat) (rowv : list A) : list A :=
+  firstn (o * C) out ++ map2 f (firstn C (skipn (o * C) out)) rowv ++ skipn (o * C + C) out.
+
+Lemma firstn_skipn_firstn {X} k x c (L : list X) : x + k <= c -> firstn k (skipn x (firstn c L)) = firstn k (skipn x L).
+Proof. intros H. rewrite skipn_firstn_comm, firstn_firstn. f_equal. lia. Qed.
+
+Section Row.
+Variable out : list A.
+Variables o a : nat.
+Hypothesis Hout : length out = outer * C.
+Hypothesis Ho : o < outer.
+Hypothesis Ha : a + C <= length inp.
+Let vals := upd_row out o (firstn C (skipn a inp)).
+
+Lemma oC_bound : o * C + C <= outer * C.
+Proof. nia. Qed.
+
+Lemma vals_length : length vals = length out.
+Proof.
+  pose proof oC_bound. unfold vals, upd_row.
+  rewrite !app_length, map2_length, !firstn_length, !skipn_length. lia.
+Qed.
+
+Lemma vals_split x : x <= C ->
+  skipn (o * C + x) vals = skipn x (map2 f (firstn C (skipn (o * C) out)) (firstn C (skipn a inp))) ++ skipn (o * C + C) out.
+Proof.
+  intros Hx. pose proof oC_bound. unfold vals, upd_row.
+  rewrite skipn_app, firstn_length. replace (Nat.min (o * C) (length out)) with (o * C) by lia.
+  rewrite skipn_all2 by (rewrite firstn_length; lia). cbn [app].
+  replace (o * C + x - o * C) with x by lia.
+  rewrite skipn_app. f_equal.
+  rewrite map2_length, !firstn_length, !skipn_length.
+  replace (x - Nat.min (Nat.min C (length out - o * C)) (Nat.min C (length inp - a))) with 0 by lia. reflexivity.
+Qed.
+
+Lemma vals_slice x k : x + k <= C ->
+  firstn k (skipn (o * C + x) vals) = map2 f (firstn k (skipn (o * C + x) out)) (firstn k (skipn (a + x) inp)).
+Proof.
+  intros H. pose proof oC_bound. rewrite vals_split by lia.
+  rewrite firstn_app.
+  rewrite skipn_length, map2_length, !firstn_length, !skipn_length.
+  replace (k - (Nat.min (Nat.min C (length out - o * C)) (Nat.min C (length inp - a)) - x)) with 0 by lia.
+  rewrite firstn_O, app_nil_r.
+  rewrite <- map2_firstn_skipn, !firstn_skipn_firstn by lia. now rewrite !skipn_skipn.
+Qed.
+
+Lemma done_start : done A vals out (o * C) = out.
+Proof.
+  pose proof oC_bound. unfold done. unfold vals at 1. unfold upd_row. rewrite firstn_app, firstn_length.
+  replace (o * C - Nat.min (o * C) (length out)) with 0 by lia.
+  rewrite firstn_O, app_nil_r, firstn_firstn. replace (Nat.min (o * C) (o * C)) with (o * C) by lia.
+  apply firstn_skipn.
+Qed.
+
+Lemma done_end : done A vals out (o * C + C) = vals.
+Proof.
+  unfold done. rewrite <- (firstn_skipn (o * C + C) vals) at 2. f_equal.
+  rewrite vals_split by lia.
+  rewrite (@skipn_all2 _ C (map2 f (firstn C (skipn (o * C) out)) (firstn C (skipn a inp)))); [reflexivity|].
+  pose proof oC_bound. rewrite map2_length, !firstn_length, !skipn_length. lia.
+Qed.
+
+Lemma done_read p k : p + k <= length out ->
+  firstn k (skipn p (done A vals out p)) = firstn k (skipn p out).
+Proof.
+  intros H. unfold done. rewrite skipn_app, firstn_length, vals_length.
+  replace (p - Nat.min p (length out)) with 0 by lia.
+  rewrite skipn_all2 by (rewrite firstn_length, vals_length; lia). reflexivity.
+Qed.
+
+Lemma run_vsteps es : forall x n, x + n = C ->
+  flat_map vcells es = map (fun x => (o * C + x, a + x)) (seq x n) ->
+  run_steps (vstep N f inp) es (done A vals out (o * C + x)) = Some (done A vals out (o * C + C)).
+Proof.
+  pose proof oC_bound as HoC. pose proof vals_length as Hvl.
+  induction es as [|e es IH]; intros x n Hxn Hc.
+  - simpl in Hc. destruct n; [|discriminate]. cbn [run_steps]. do 2 f_equal. lia.
+  - cbn [flat_map run_steps] in *.
+    destruct e as [[ot oo] [it io]].
+    remember (length (vcells ((ot, oo), (it, io)))) as k eqn:Ek.
+    assert (Hk : k <= n).
+    { apply (f_equal (@length _)) in Hc. rewrite app_length, map_length, seq_length in Hc. lia. }
+    assert (Hhead : vcells ((ot, oo), (it, io)) = map (fun x => (o * C + x, a + x)) (seq x k)).
+    { apply (f_equal (firstn k)) in Hc. rewrite firstn_app in Hc. rewrite <- Ek in Hc.
+      replace (k - k) with 0 in Hc by lia. rewrite firstn_O, app_nil_r, firstn_all2 in Hc by lia.
+      rewrite Hc, firstn_map. f_equal. replace n with (k + (n - k)) by lia.
+      rewrite seq_app, firstn_app, seq_length. replace (k - k) with 0 by lia.
+      rewrite firstn_O, app_nil_r. apply firstn_all2. rewrite seq_length; lia. }
+    assert (Htail : flat_map vcells es = map (fun x => (o * C + x, a + x)) (seq (x + k) (n - k))).
+    { apply (f_equal (skipn k)) in Hc. rewrite skipn_app in Hc. rewrite <- Ek in Hc.
+      replace (k - k) with 0 in Hc by lia. rewrite skipn_all2, skipn_O in Hc by lia. simpl in Hc.
+      rewrite Hc, skipn_map. f_equal. replace n with (k + (n - k)) at 1 by lia.
+      rewrite seq_app, skipn_app, seq_length. replace (k - k) with 0 by lia.
+      rewrite skipn_all2 by (rewrite seq_length; lia). reflexivity. }
+    assert (Hstep : vstep N f inp (done A vals out (o * C + x)) ((ot, oo), (it, io)) = Some (done A vals out (o * C + (x + k)))).
+    { unfold vstep. unfold vcells in Hhead, Ek.
+      destruct ot; try (simpl in Ek; subst k; do 2 f_equal; lia).
+      - (* ACCUMULATE: one scalar cell *)
+        simpl in Ek. subst k. simpl in Hhead. injection Hhead as Hoo Hio. subst oo io.
+        assert (Hp : o * C + x < length out) by lia.
+        rewrite (load1_ok A d) by (rewrite (done_length A N HN) by lia; lia).
+        rewrite (load1_ok A d) by lia. cbn [obind]. unfold store1.
+        rewrite (store_step A N HN vals out (o * C + x) [f (nth (o * C + x) (done A vals out (o * C + x)) d) (nth (a + x) inp d)]).
+        + cbn [length]. do 2 f_equal. lia.
+        + lia.
+        + cbn [length]. lia.
+        + cbn [length]. rewrite (vals_slice x 1) by lia.
+          rewrite <- (done_read (o * C + x) 1) by lia.
+          rewrite !(firstn1_skipn d) by (rewrite ?(done_length A N HN) by lia; lia). reflexivity.
+      - (* ACCUMULATE_PACKED *)
+        rewrite map_length, seq_length in Ek. subst k.
+        pose proof (map_seq_eq_pointwise N (fun t => (oo + t, io + t)) (fun x => (o * C + x, a + x)) x Hhead 0 HN) as H0.
+        cbn beta in H0. rewrite !Nat.add_0_r in H0. injection H0 as Hoo Hio. subst oo io.
+        rewrite (loadu_ok A N HN) by lia. cbn [obind].
+        rewrite (loadu_ok A N HN) by (rewrite (done_length A N HN) by lia; lia). cbn [obind].
+        rewrite done_read by lia.
+        replace N with (length (map2 f (firstn N (skipn (o * C + x) out)) (firstn N (skipn (a + x) inp)))) at 5
+          by (rewrite map2_length, !(firstn_skipn_length A N HN) by lia; lia).
+        rewrite (store_step A N HN).
+        + rewrite map2_length, !(firstn_skipn_length A N HN) by lia. do 2 f_equal. lia.
+        + lia.
+        + rewrite map2_length, !(firstn_skipn_length A N HN) by lia. lia.
+        + rewrite map2_length, !(firstn_skipn_length A N HN) by lia.
+          replace (Nat.min N N) with N by lia. symmetry. apply vals_slice. lia. }
+    rewrite Hstep. cbn [obind]. replace (o * C + (x + k)) with (o * C + (x + k)) by lia.
+    apply (IH (x + k) (n - k)); [lia | exact Htail].
+Qed.
+End Row.
+
+(* the effect of input row i: it is accumulated element-wise into output row i / K, nothing else changes *)
+Definition vrow_effect (out : list A) (i : nat) : list A := upd_row out (i / K) (firstn C (skipn (i * C) inp)).
+
+Lemma run_steps_app {E} (step : list A -> E -> option (list A)) es1 : forall es2 out,
+  run_steps step (es1 ++ es2) out = obind (run_steps step es1 out) (run_steps step es2).
+Proof.
+  induction es1 as [|x es1 IH]; intros es2 out; cbn [app run_steps]; [reflexivity|].
+  destruct (step out x); cbn [obind]; [apply IH | reflexivity].
+Qed.
+
+Lemma vrow_run out i : length out = outer * C -> i < outer * K ->
+  run_steps (vstep N f inp) (map (fun j => reduction_2d N VERTICAL i j (outer, C) (outer * K, C)) (seq 0 (C / N + C mod N))) out
+  = Some (vrow_effect out i) /\ length (vrow_effect out i) = outer * C.
+Proof.
+  intros Hout Hi.
+  assert (Ho : i / K < outer) by (apply Nat.div_lt_upper_bound; lia).
+  assert (Ha : i * C + C <= length inp) by (rewrite Hinp; nia).
+  split.
+  - pose proof (run_vsteps out (i / K) (i * C) Hout Ho Ha _ 0 C ltac:(lia) (vrow_cells i Hi)) as H.
+    rewrite Nat.add_0_r, (done_start out (i / K) (i * C) Hout Ho Ha) in H.
+    rewrite H. f_equal. apply (done_end out (i / K) (i * C) Hout Ho Ha).
+  - unfold vrow_effect. rewrite (vals_length out (i / K) (i * C) Hout Ho Ha). exact Hout.
+Qed.
+
+Theorem vreduce_eq out0 : length out0 = outer * C ->
+  run_steps (vstep N f inp) (red_entries N VERTICAL (outer, C) (outer * K, C)) out0
+  = Some (fold_left vrow_effect (seq 0 (outer * K)) out0).
+Proof.
+  intros Hout.
+  assert (HSC : 0 < C / N + C mod N).
+  { pose proof (Nat.div_mod C N ltac:(lia)). destruct (C / N); simpl in *; lia. }
+  unfold red_entries, reduction_2d_shape. cbn [fst snd].
+  rewrite (map_divmod_nested (fun a b => reduction_2d N VERTICAL a b (outer, C) (outer * K, C)) (C / N + C mod N) (outer * K) HSC).
+  assert (Hgen : forall rows out, length out = outer * C -> Forall (fun i => i < outer * K) rows ->
+     run_steps (vstep N f inp)
+       (flat_map (fun a => map (fun b => reduction_2d N VERTICAL a b (outer, C) (outer * K, C)) (seq 0 (C / N + C mod N))) rows) out
+     = Some (fold_left vrow_effect rows out)).
+  { induction rows as [|i rows IH]; intros out Ho Hall; [reflexivity|].
+    inversion Hall as [|? ? Hi Hrest]; subst.
+    cbn [flat_map fold_left]. rewrite run_steps_app.
+    destruct (vrow_run out i Ho Hi) as [Hrun Hlen]. rewrite Hrun. cbn [obind]. apply IH; assumption. }
+  apply Hgen; [exact Hout|]. apply Forall_forall. intros i Hi. apply in_seq in Hi. lia.
+Qed.
+End Vertical.
